@@ -27,6 +27,7 @@ type Scenario struct {
 }
 
 type result struct {
+	live   bool // recorded after the hang bound with an idle consumer: the liveness diagnosis applies
 	rq     int
 	viol   []violation
 	sc     Scenario
@@ -524,6 +525,106 @@ func RunScenario(sc Scenario, maxRbuf uint64) result {
 		for i := 0; i < want+1; i++ {
 			s.ReleaseHandler(1)
 		}
+	case "mixedsizes":
+		// C13 "slowed down, never deadlocked": the pending budget is filled with
+		// small messages, then a message arrives that needs k >= 2 handled
+		// messages to fit; the gated handler is released step by step.  After the
+		// consumer has handled everything, every message sent must be delivered
+		// within the hang bound (5 s; the wait in the code polls every 1 ms).
+		var reqType, smallType uint8
+		var hdr []byte
+		switch p.Name {
+		case "blockfetch":
+			reqType, smallType = 0, 4
+			hdr = RawMsg(2, 3+r.Intn(30), 0) // StartBatch: handled first, frees almost nothing
+		default: // chain-sync NtN: pipelined RequestNext, RollForward replies
+			reqType, smallType = 0, 2
+		}
+		limit := 0
+		for st, e := range s.stateMap {
+			if peerAgency(sc.Server, e.Agency) && e.PendingMessageByteLimit > limit && st.Id != 0 {
+				limit = e.PendingMessageByteLimit
+			}
+		}
+		n := 5 + r.Intn(8)
+		a := limit * (70 + r.Intn(26)) / 100 / n
+		var replies [][]byte
+		if hdr != nil {
+			replies = append(replies, hdr)
+		}
+		pendingBefore := len(hdr)
+		for i := 0; i < n; i++ {
+			raw := RawMsg(smallType, a, byte(i))
+			replies = append(replies, raw)
+			pendingBefore += len(raw)
+		}
+		kk := 2 + r.Intn(n-1) // drains of small messages needed (>= 2)
+		if kk > n {
+			kk = n
+		}
+		b := limit - pendingBefore + (kk-1)*a + 3 + r.Intn(a-8)
+		if b > limit {
+			b = limit
+		}
+		big := RawMsg(smallType, b, 0xbb)
+		replies = append(replies, big)
+		replies = append(replies, RawMsg(smallType, 10+r.Intn(100), 0xcc)) // one more behind it
+		total := len(replies)
+		s.HandlerGate = make(chan struct{})
+		nreq := 1
+		if hdr == nil {
+			nreq = total
+		}
+		for i := 0; i < nreq; i++ {
+			raw := rawFor(p, reqType, 8, r)
+			m, _ := s.NewOutbound(raw, reqType)
+			_ = s.SendTimed(m)
+		}
+		var buf []byte
+		for _, x := range replies {
+			buf = append(buf, x...)
+		}
+		note("limit %d: %d small messages of %d bytes (+%d header), then one of %d bytes that needs %d more handled messages, then one small", limit, n, a, len(hdr), len(big), kk)
+		s.PeerWriteOrdered(fragment(buf, vh.NewRng(1)))
+		count := func(ev []Event, kind uint8) int {
+			c := 0
+			for _, e := range ev {
+				if e.Kind == kind {
+					c++
+				}
+			}
+			return c
+		}
+		reached := s.WaitFor(func(ev []Event) bool {
+			return count(ev, protocol.VerifEvAdmit) >= total-2 && count(ev, protocol.VerifEvLim) >= total-1
+		})
+		s.Settle()
+		if reached {
+			note("reader holds the large message (blocked by the limit); releasing the handler step by step")
+		}
+		for i := 0; i < total; i++ {
+			before := count(s.takeEvents(), protocol.VerifEvDec)
+			s.ReleaseHandler(1)
+			s.WaitFor(func(ev []Event) bool { return count(ev, protocol.VerifEvDec) > before || count(ev, protocol.VerifEvSendErr) > 0 })
+			s.Settle()
+		}
+		// hang bound: everything must be delivered although nobody pushes any more
+		deadline := time.Now().Add(5 * time.Second)
+		for s.handlerCalls() < total && time.Now().Before(deadline) {
+			s.ReleaseHandler(1)
+			time.Sleep(2 * time.Millisecond)
+		}
+		res.live = true
+		if got := s.handlerCalls(); got < total {
+			pend, tracked := s.P.VerifPendingRecvBytes()
+			evs0 := s.takeEvents()
+			if count(evs0, protocol.VerifEvSendErr) == 0 && tracked == 0 {
+				stName := s.P.VerifCurrentState().Name
+				res.viol = append(res.viol, violation{fmt.Sprintf("c13:recv-stalled-after-drain:%s:%s", p.Name, stName),
+					fmt.Sprintf("%d of %d valid messages delivered; the consumer has handled everything it was given (pendingRecvBytes=%d, nothing tracked) and waited 5 s, but readLoop still holds a %d-byte message under limit %d: the receive path is stalled (back-pressure must slow down, never deadlock)", got, total, pend, len(big), limit)})
+			}
+			note("stalled: %d of %d delivered", got, total)
+		}
 	case "sendlimit":
 		// pendingSendBytes limit of the current state
 		_, e := curEntry()
@@ -752,7 +853,8 @@ func (res *result) monitor(s *Session, evs []Event, wire []byte, enq []uint64) {
 
 const Header = `From V Require Import Lib.Base C11.Engine C11.Model %s.Gen.
 Local Open Scope N_scope.
-Definition diags := diags_of all_maps consts_gen.`
+Definition diags := diags_of all_maps consts_gen.
+Definition diags_live := diags_live_of all_maps consts_gen.`
 
 func keyFor(prop string) string { return strings.ToLower(prop) + ":" }
 
@@ -771,6 +873,9 @@ func RunAll(c *vh.Ctx, prop string) error {
 	}
 	cf := c.NewCaseFile(strings.ToLower(prop), fmt.Sprintf(Header, prop))
 	cf.Func = "diags"
+	cfLive := c.NewCaseFile(strings.ToLower(prop)+"live", fmt.Sprintf(Header, prop))
+	cfLive.Func = "diags_live"
+	cfLive.SetShardSize(c.Pick(12, 25))
 	cf.SetShardSize(c.Pick(12, 25))
 	var scs []Scenario
 	if c.Replay != "" {
@@ -814,10 +919,15 @@ func RunAll(c *vh.Ctx, prop string) error {
 					c.Res.Violate("monitor", v.key, v.what, rep)
 				}
 			}
-			cf.Add(CoqCase(sc.Sm, res.sc.Server, res.rq, res.tr, res.wire), rep)
+			if res.live {
+				cfLive.Add(CoqCase(sc.Sm, res.sc.Server, res.rq, res.tr, res.wire), rep)
+			} else {
+				cf.Add(CoqCase(sc.Sm, res.sc.Server, res.rq, res.tr, res.wire), rep)
+			}
 		}
 	}
 	cf.Flush()
+	cfLive.Flush()
 	return nil
 }
 
@@ -892,6 +1002,13 @@ func scenarios(c *vh.Ctx, prop string) []Scenario {
 		for rep := 0; rep < c.Pick(2, 8); rep++ {
 			add("crossstate", idx["blockfetch"], false, 1)
 		}
+		for rep := 0; rep < c.Pick(6, 30); rep++ {
+			sm := idx["chainsync_ntn"]
+			if rep%3 == 2 {
+				sm = idx["blockfetch"]
+			}
+			add("mixedsizes", sm, false, 1)
+		}
 		for rep := 0; rep < c.Pick(10, 80); rep++ {
 			sm := []int{idx["chainsync_ntn"], idx["blockfetch"]}[r.Intn(2)]
 			add("adversarial", sm, r.Bool(), 4+r.Intn(8))
@@ -954,6 +1071,8 @@ func Post(c *vh.Ctx) error {
 				what = "messages on the wire are not a prefix of the model's wire log"
 			case code == 5:
 				what = "error flag differs from the model's"
+			case code == 8:
+				what = "the implementation is stalled where the specification can move: readLoop holds a decoded message whose admission guard pending+len <= limit holds (C13_backpressure_progress) but it was not admitted within the hang bound although the consumer is idle"
 			case code == 7:
 				what = "sequence of messages making their send transition differs from the model's (= written order)"
 			case code == 6:
